@@ -1081,6 +1081,8 @@ class Norm:
             src = e["src"]
             if src.startswith("TryDesugar"):
                 sc = self._t(e["scrut"])
+                if sc[0] == "try" and sc[1][0] == "call" and sc[1][1] in ("Ok", "Some") and len(sc[1][2]) == 1:
+                    return sc[1][2][0]           # Ok(x)? is x (an inlined helper that cannot fail on this path)
                 return sc if sc[0] == "try" else ("try", sc)
             fl = as_for_loop(e)
             if fl is not None:
